@@ -1,7 +1,104 @@
 From Coq Require Import NArith List Bool Arith.
-From LTV.C03 Require Import ParamsGen Model Proofs.
+From LTV.C03 Require Import ParamsGen Model Proofs ProofsA ProofsB ProofsC ProofsD.
 Import ListNotations.
 
 Theorem params_ok_now : params_ok = true.
 Proof. exact Proofs.params_ok_now. Qed.
 Print Assumptions params_ok_now.
+
+(* one read_message call never reads outside the unread bytes of the buffer *)
+Theorem read_message_buffer_safe : forall (r : role) (l : list N), one_msg r l <> HFault.
+Proof. exact ProofsA.one_msg_no_fault. Qed.
+Print Assumptions read_message_buffer_safe.
+
+(* a decision of read_message other than "need more" does not depend on the bytes that follow *)
+Theorem read_message_monotone : forall (r : role) (l x : list N),
+  one_msg r l <> NeedMore -> one_msg r (l ++ x) = one_msg r l.
+Proof. exact ProofsA.one_msg_mono. Qed.
+Print Assumptions read_message_monotone.
+
+(* a header is 4..17 bytes and lies inside the unread bytes: every loop iteration consumes input *)
+Theorem read_message_consumes : forall (r : role) (l : list N) (m : msg) (n : nat),
+  one_msg r l = Got m n -> (4 <= n <= length l)%nat /\ (n <= 17)%nat.
+Proof. exact ProofsA.one_msg_got_len. Qed.
+Print Assumptions read_message_consumes.
+
+(* the fuel of the decoder is irrelevant once it exceeds the measure: no spin *)
+Theorem decoder_no_spin : forall (HS : Type) (handle : HS -> msg -> HS * verdict) (rl : role)
+  (f1 f2 : nat) (h : HS) (m : rmode) (l : list N),
+  (mu m l < f1)%nat -> (mu m l < f2)%nat -> feed HS handle rl f1 h m l = feed HS handle rl f2 h m l.
+Proof. exact ProofsB.feed_fuel. Qed.
+Print Assumptions decoder_no_spin.
+
+Theorem decode_total : forall (HS : Type) (handle : HS -> msg -> HS * verdict) (rl : role) (h : HS) (s : list N),
+  exists h' m' b' es, decode HS handle rl h s = PRes h' m' b' es.
+Proof. exact ProofsC.decode_total. Qed.
+Print Assumptions decode_total.
+
+Theorem decoder_compositional : forall (HS : Type) (handle : HS -> msg -> HS * verdict) (rl : role)
+  (h : HS) (m : rmode) (a b : list N),
+  feedx HS handle rl h m (a ++ b) = pbind HS handle rl (feedx HS handle rl h m a) b.
+Proof. exact ProofsB.feedx_app'. Qed.
+Print Assumptions decoder_compositional.
+
+Theorem decoder_segmentation_independent : forall (HS : Type) (handle : HS -> msg -> HS * verdict) (rl : role)
+  (h : HS) (chunks : list (list N)),
+  feed_chunks HS handle rl h RIdle [] chunks = decode HS handle rl h (concat chunks).
+Proof. exact ProofsC.decoder_segmentation_independent. Qed.
+Print Assumptions decoder_segmentation_independent.
+
+Theorem decoder_segmentation_independent_from : forall (HS : Type) (handle : HS -> msg -> HS * verdict) (rl : role)
+  (h : HS) (m : rmode) (buf : list N) (chunks1 chunks2 : list (list N)),
+  feedx HS handle rl h m buf = PRes h m buf [] ->
+  concat chunks1 = concat chunks2 ->
+  feed_chunks HS handle rl h m buf chunks1 = feed_chunks HS handle rl h m buf chunks2.
+Proof. exact ProofsC.decoder_segmentation_independent_from. Qed.
+Print Assumptions decoder_segmentation_independent_from.
+
+Theorem decode_rest_incomplete : forall (HS : Type) (handle : HS -> msg -> HS * verdict) (rl : role)
+  (h : HS) (s : list N) (h' : HS) (b' : list N) (es : list effect),
+  decode HS handle rl h s = PRes h' RIdle b' es -> one_msg rl b' = NeedMore /\ (length b' < 17)%nat.
+Proof. exact ProofsC.decode_rest_incomplete_short. Qed.
+Print Assumptions decode_rest_incomplete.
+
+Theorem no_fatal_from_input : forall (HS : Type) (handle : HS -> msg -> HS * verdict) (rl : role),
+  handler_never_fatal HS handle ->
+  forall (h : HS) (s : list N) (h' : HS) (m' : rmode) (b' : list N) (es : list effect),
+  decode HS handle rl h s = PRes h' m' b' es -> ~ In EFatal es.
+Proof. exact ProofsC.no_fatal_from_input. Qed.
+Print Assumptions no_fatal_from_input.
+
+(* The machine: event_read over a socket.  For EVERY handler, role, per-read budget oracle,
+   fill-target oracle (13 or 512 on an empty buffer) and EVERY list of TCP segments: the run ends
+   normally -- no MFault (no write past the 512-byte buffer, no read outside the unread bytes:
+   buffer_safe), no MOut (every loop iteration consumed input or returned: no_spin) -- and the
+   handler state, read mode, unread rest and effect sequence are those of decoding the
+   concatenated stream at once (segmentation_independent). *)
+Theorem machine_segmentation_independent :
+  forall (HS : Type) (handle : HS -> msg -> HS * verdict) (rl : role) (budget : nat -> nat) (short : nat -> bool)
+         (h : HS) (segs : list (list N)),
+  exists s' es,
+    run HS handle rl budget short h [] segs = MRet s' [] es /\
+    decode HS handle rl h (concat segs) = PRes (m_h s') (m_mode s') (m_buf s') es.
+Proof. exact ProofsD.machine_segmentation_independent. Qed.
+Print Assumptions machine_segmentation_independent.
+
+(* one event_read from a settled state: ends normally, never reads more than the socket holds,
+   consumes at least one byte when the socket is non-empty and the connection is open *)
+Theorem event_read_total :
+  forall (HS : Type) (handle : HS -> msg -> HS * verdict) (rl : role) (budget : nat -> nat) (short : nat -> bool)
+         (fuel : nat) (s : mst HS) (avail : list N),
+  good HS handle rl s -> (length avail < fuel)%nat ->
+  exists s' a' es, ev HS handle rl budget short fuel s avail = MRet s' a' es /\ (length a' <= length avail)%nat /\
+                   (avail <> [] -> m_mode s <> RClosed -> (length a' < length avail)%nat).
+Proof. exact ProofsD.ev_total. Qed.
+Print Assumptions event_read_total.
+
+Theorem handover_complete_refuted :
+  exists (c : cfg) (pre : list N),
+    effs_of (run_real c (fun _ => 0%nat) (fun _ => false) (h0 c) pre []) = Some [] /\
+    mbuf_of (run_real c (fun _ => 0%nat) (fun _ => false) (h0 c) pre []) = Some pre /\
+    one_msg (c_role c) pre <> NeedMore /\
+    peffs_of (decode_real c (h0 c) pre) = Some [EMsg MInterested].
+Proof. exact ProofsC.handover_complete_refuted. Qed.
+Print Assumptions handover_complete_refuted.
